@@ -24,6 +24,8 @@ FEATURES = {
     "slcap": (dict(sched=["sl", True, "resume"]), {}),
     "renege": (dict(reneging="exit"), {}),
     "jockey": (dict(reneging="jockey"), {"topo": "tandem"}),
+    "jockeyfull": (dict(reneging="jockey", cap2=0, a2=True), {"topo": "tandem"}),
+    "renege2": (dict(reneging="mixed", classes=2, p=1.0), {"topo": "tandem"}),
     "baulk": (dict(baulk="sym"), {}),
     "block": (dict(topo="tandem", cap2=0), {"topo": "tandem"}),
     "block1": (dict(topo="tandem", cap2=1, a2=True), {"topo": "tandem"}),
@@ -40,8 +42,8 @@ GROUPS = {  # features of one group exclude each other
     "servers": ["c2", "cinf", "sc", "sc_resume", "sc_restart", "sc_resample", "sc_reroute", "sl", "slcap", "ps"],
     "disc": ["lifo", "siro"],
     "prio": ["prio", "pre_resume", "pre_restart", "pre_resample", "pre_reroute"],
-    "topo": ["block", "block1", "selfloop", "loop", "jockey", "jsq"],
-    "ren": ["renege", "jockey"],
+    "topo": ["block", "block1", "selfloop", "loop", "jockey", "jockeyfull", "renege2", "jsq"],
+    "ren": ["renege", "jockey", "jockeyfull", "renege2"],
     "cc": ["ccafter", "ccwait"],
 }
 
@@ -49,7 +51,8 @@ INVALID = [
     {"ps", "prio"}, {"ps", "pre_resume"}, {"ps", "pre_restart"}, {"ps", "pre_resample"}, {"ps", "pre_reroute"},
     {"ps", "renege"}, {"ps", "jockey"}, {"ps", "lifo"}, {"ps", "siro"}, {"ps", "ccwait"}, {"ps", "block"}, {"ps", "block1"}, {"ps", "selfloop"}, {"ps", "loop"},
     {"cinf", "lifo"}, {"cinf", "siro"}, {"cinf", "prio"}, {"cinf", "pre_resume"}, {"cinf", "pre_restart"}, {"cinf", "pre_resample"}, {"cinf", "pre_reroute"},
-    {"cinf", "renege"}, {"cinf", "jockey"}, {"cinf", "ccwait"}, {"cinf", "cap1"},
+    {"cinf", "renege"}, {"cinf", "jockey"}, {"cinf", "ccwait"}, {"cinf", "cap1"}, {"cinf", "jockeyfull"}, {"cinf", "renege2"},
+    {"ps", "jockeyfull"}, {"ps", "renege2"}, {"renege2", "ccafter"}, {"renege2", "ccwait"},
     {"sl", "pre_resume"}, {"sl", "pre_restart"}, {"sl", "pre_resample"}, {"sl", "pre_reroute"},
     {"slcap", "pre_resume"}, {"slcap", "pre_restart"}, {"slcap", "pre_resample"}, {"slcap", "pre_reroute"},
     {"offset", "c2"}, {"offset", "cinf"}, {"offset", "ps"},
